@@ -1,0 +1,18 @@
+//go:build verif
+
+// Contracts for the verification machinery in /verif (comment-only; compiled only with -tags verif).
+package interpreter
+
+//@ func NewInt8Value
+//@   inline
+//@ func NewUnmeteredInt8Value
+//@   inline
+
+//@ func (Int8Value).Plus
+//@   requires other != nil
+//@   let a = num(v)
+//@   let b = num(other.(Int8Value))
+//@   fails kind(other) != Int8Value => InvalidOperandsError
+//@   fails[C11] kind(other) == Int8Value && (a + b > 127 || a + b < -128) => OverflowError|UnderflowError
+//@   ensures[C11] kind(result) == Int8Value && num(result) == a + b
+//@   env MemoryMeteringError
